@@ -6,7 +6,9 @@ correspondence of the real `rebuild()` of constructed objects with the Lean `ren
 renderBinding`, in every container context and at several (indent, inline) pairs.
 Oracle (implementation only): the text is read back into Python data by an independent tree-sitter
 reader (`cstread.read_data`) and compared, typed, with the original value; output error-free; two
-renders equal; `parse(text).rebuild() == text`.
+renders equal; `parse(text).rebuild() == text`. A value holding an integer Nix cannot write
+(magnitude above 2**63 - 1) is outside the domain BECAUSE the API refuses it: for such a value the
+oracle demands the ValueError (clause `refuses`), every time.
 The Lean SPEC reader (`readData`) is validated on every sample against the tree-sitter reader.
 """
 from __future__ import annotations
@@ -21,7 +23,8 @@ from ..framework import hx, unhx
 from ..oracle import cstread
 from .c12 import ALPHABET
 
-GEN_TABLES = ("escape", "max_inline_width", "auto_multiline", "single_binding", "literals", "coerce_order")
+GEN_TABLES = ("escape", "max_inline_width", "auto_multiline", "single_binding", "literals", "coerce_order",
+              "list_item_paren", "float_literal", "int_literal_max")
 
 NIX_INT_MAX = 2**63 - 1
 INTS = [0, 1, -1, 42, -7, 10, 2**31, -(2**31) - 1, NIX_INT_MAX, -NIX_INT_MAX, 2**63, -(2**63), 10**30]
@@ -318,69 +321,22 @@ def exc_class(exc: BaseException) -> str:
     return "internal:" + type(exc).__name__
 
 
-# ------------------------------------------------------------------ classification of failures
-def culprits(v, in_list=False, acc=None):
-    """Kinds of sub-values known (Lean: cex_*) not to survive rendering, in a fixed priority order."""
-    acc = acc if acc is not None else set()
-    if isinstance(v, bool) or v is None or isinstance(v, str):
-        return acc
+# ------------------------------------------------------------------ domain
+def out_of_range(v) -> bool:
+    """The value holds an integer Nix has no literal for (the API must refuse it)."""
+    if isinstance(v, bool) or v is None or isinstance(v, (str, float)):
+        return False
     if isinstance(v, int):
-        if abs(v) > NIX_INT_MAX:
-            acc.add("int-out-of-range")
-        elif v < 0 and in_list:
-            acc.add("neg-number-in-list")
-    elif isinstance(v, float):
-        r = repr(v)
-        if "." not in r:
-            acc.add("float-exponent-no-dot")
-        elif r.startswith("-") and in_list:
-            acc.add("neg-number-in-list")
-    elif isinstance(v, list):
-        for x in v:
-            culprits(x, True, acc)
-    elif isinstance(v, dict):
-        for x in v.values():
-            culprits(x, False, acc)
-    return acc
-
-
-PRIORITY = ["neg-number-in-list", "float-exponent-no-dot", "int-out-of-range"]
-
-
-def neutralise(v, in_list=False):
-    """The same value with every culprit replaced by a harmless stand-in of the same type."""
-    if isinstance(v, bool) or v is None or isinstance(v, str):
-        return v
-    if isinstance(v, int):
-        if abs(v) > NIX_INT_MAX:
-            return 7
-        return -v if (v < 0 and in_list) else v
-    if isinstance(v, float):
-        r = repr(v)
-        if "." not in r:
-            return 2.5
-        return -v if (r.startswith("-") and in_list) else v
+        return abs(v) > NIX_INT_MAX
     if isinstance(v, list):
-        return [neutralise(x, True) for x in v]
-    return {k: neutralise(x, False) for k, x in v.items()}
+        return any(out_of_range(x) for x in v)
+    return any(out_of_range(x) for x in v.values())
 
 
-def neutralise_case(c):
-    c2 = dict(c)
-    for f in ("d", "v"):
-        if f in c2:
-            c2[f] = neutralise(c2[f])
-    if "xs" in c2:
-        c2["xs"] = neutralise(c2["xs"])
-    return c2
-
-
-def case_culprits(c):
-    acc = set()
-    for f in ("d", "v", "xs"):
-        if f in c:
-            culprits(c[f], False, acc)
-    return acc
+def inputs_out_of_range(c) -> bool:
+    """Some value handed in (also one that a later assignment replaces) is out of range: the Lean
+    domain predicate `ctxInDomain` speaks about the inputs."""
+    return any(out_of_range(c[f]) for f in ("d", "v", "xs") if f in c)
 
 
 def wrap(c, text):
@@ -408,6 +364,18 @@ def check_clauses(c, with_stable=True):
     """Evaluate the property's clauses on the implementation. Returns (clause, what, extra) or None."""
     from nix_manipulator import parse
 
+    if out_of_range(expected(c)):
+        # outside the domain, provided the API says so loudly — on every attempt
+        for attempt in ("first", "second"):
+            try:
+                _, text = render_real(c)
+            except ValueError:
+                continue
+            except Exception as exc:  # noqa: BLE001
+                return "refuses", f"an out-of-range integer made the rebuild raise {type(exc).__name__} (not ValueError): {exc}", {}
+            return "refuses", (f"{attempt} rebuild wrote an integer outside Nix's signed 64-bit range instead of raising "
+                               f"ValueError: {text!r}"), {"output": text}
+        return None
     try:
         obj, text = render_real(c)
     except Exception as exc:  # noqa: BLE001
@@ -444,12 +412,7 @@ def classify(c, res):
     if clause == "stable":
         kind = inline_multiline_shape(extra.get("output", ""))
         return {"clause": "stable", "kind": kind, "context": c["context"]}
-    cs = case_culprits(c)
-    kind = "none"
-    if cs:
-        # the culprit explains the failure only if the same case without it passes these clauses
-        if check_clauses(neutralise_case(c), with_stable=False) is None:
-            kind = next(k for k in PRIORITY if k in cs)
+    kind = "int-out-of-range" if clause == "refuses" else "none"
     return {"clause": clause, "kind": kind, "context": c["context"]}
 
 
@@ -485,7 +448,7 @@ def gen_cases(ctx: fw.Ctx):
     witnesses = [mk("list", xs=[-1]), mk("list", xs=[1e16]), mk("binding", k="a", v=1e-07),
                  mk("binding", k="a", v=2**63), mk("fromdict", d={"k": [1, 2]}),
                  mk("binding", 2, True, k="k", v=[[1, 2]]), mk("fromdict", d={"a": 1, "k": [[1, 2]]})]
-    for ent in fw.load_known("C13")[0]:
+    for ent in sum(fw.load_known("C13"), []):  # open findings, and repaired ones as regression inputs
         inp = ent.get("input", {})
         if "context" in inp:
             witnesses.append({"indent": 0, "inline": False, **inp})
@@ -560,7 +523,8 @@ def gen_cases(ctx: fw.Ctx):
 
 def run(ctx: fw.Ctx):
     ctx.extra["rule"] = (
-        "values: every scalar representative (13 ints incl. the 64-bit bounds, 19 floats incl. exponent forms, "
+        "values: every scalar representative (13 ints incl. the 64-bit bounds and three beyond them, which must be "
+        "refused; 19 floats incl. exponent forms, "
         "bools, None, every string up to a length bound over a 17-letter escape alphabet) in every container "
         "context (from_dict, AttributeSet(values=), Binding, NixList, item assignment on built and on parsed sets; top level, binding value, "
         "list element, nested) and at several (indent, inline); every list/dict nesting shape up to a depth "
@@ -576,7 +540,9 @@ def run(ctx: fw.Ctx):
     ]
     ctx.assumptions = [
         "Nix reads integers/floats/strings per the lexer rules mirrored in Model/DataReader.lean; integer literals must fit 64 bits",
-        "Nix and Python convert the same decimal float literal to the same double (repr round-trips in Python)",
+        "an integer of magnitude above 2**63 - 1 is outside the domain because (and as long as) the API refuses it with ValueError",
+        "Nix and Python round the real number a decimal float literal denotes to the same double (repr round-trips in Python); "
+        "`1.0e+16` and `1e+16` denote the same number (Lean: decValue)",
         "`-` in front of a numeric literal denotes the negated number (Nix: 0 - x; -0.0 compares equal to 0.0)",
         "strings are valid Unicode without NUL (Nix strings cannot hold NUL); dict keys are distinct identifiers, not keywords",
         "finite floats only; a dict inside a list is outside the domain (the code raises ValueError)",
@@ -617,21 +583,30 @@ def run_batch(ctx: fw.Ctx, cases, state):
     replies = ctx.driver.ask_many(reqs + [["readdata", hx(t)] for t in corpus])
     ctx.corr_checked += len(reqs)
     for c, rq, im, got in zip(cases, reqs, impl, replies):
-        model_text = unhx(got[1]) if got and got[0] == "ok" else None
-        if im[0] != "ok" or model_text != im[1]:
+        if got and got[0] == "ok":
+            model, flag_atoms = ["ok", unhx(got[1])], got[3:6]
+        elif got and got[0] == "err":
+            model, flag_atoms = ["err", got[1]], got[2:5]
+        else:
+            model, flag_atoms = None, []
+        if model != im:
             state["bad"] += 1
             if state["bad"] <= 5:
                 ctx.tie_break("correspondence", f"rebuild of {c['context']} disagrees with the model on {c!r}",
-                              request=rq, implementation=im, model=model_text)
+                              request=rq, implementation=im, model=model)
             continue
-        # the Lean side condition is the harness's classification: in the domain; readable = avoids = no culprit
-        flags = [x == "t" for x in got[3:6]]
-        want_ok = not case_culprits(c)
-        if flags != [True, want_ok, want_ok]:
+        # the Lean predicates are the harness's: in the domain = readable = no out-of-range integer among the
+        # inputs; must be refused = the data expected back holds one
+        flags = [x == "t" for x in flag_atoms]
+        in_dom = not inputs_out_of_range(c)
+        if flags != [in_dom, in_dom, out_of_range(expected(c))]:
             state["flag_bad"] += 1
             if state["flag_bad"] <= 3:
-                ctx.tie_break("spec", f"Lean (inDomain, readable, avoids) = {flags} but the harness finds culprits "
-                              f"{sorted(case_culprits(c))} in {c!r}")
+                ctx.tie_break("spec", f"Lean (inDomain, readable, mustRefuse) = {flags} but the harness computes "
+                              f"{[in_dom, in_dom, out_of_range(expected(c))]} for {c!r}")
+        if model[0] == "err":
+            ctx.count("refused")
+            continue
         # SPEC validation: whatever the Lean reader reads, the tree-sitter reader reads too
         if got[2] != "none":
             lean_val = dec_data(got[2][1])
@@ -709,7 +684,6 @@ def replay(payload: dict) -> int:
         print("rendered:", repr(text))
     except Exception as exc:  # noqa: BLE001
         print("raised", type(exc).__name__, exc)
-        return 1
     res = check_clauses(c)
     if res is None:
         print("all clauses hold")
